@@ -268,10 +268,13 @@ def run(ch, tier):
                 # a twin of a registered transition: same ends and event, only the priority or only the guard differs
                 o_ = ops.pick(mine)
                 src, tgt, evn, g_, p_ = o_.source, o_.target, o_.event, o_.guard, o_.priority
-                if ops.flag(1, 2):
+                kind_ = ops.weighted([('priority', 2), ('guard', 2), ('same', 1)])
+                if kind_ == 'priority':
                     p_ = p_ + ops.pick([1, -1, 5])
-                else:
+                elif kind_ == 'guard':
                     g_ = ops.pick(['True', 'not False', '1 == 1', '2 > 1'])
+                else:
+                    res.stats['exact_duplicate_of_a_registered_transition_added'] += 1     # nothing forbids it; both are registered
                 res.stats['twin_transition_added'] += 1
             t = model.Transition(src, tgt, event=evn, guard=g_, priority=p_)
             if src not in m.st:
